@@ -113,9 +113,10 @@ struct Ran {
     responses: usize,
 }
 impl Ran {
-    /// rejected before any resolver ran
+    /// the request as a whole was refused before any resolver ran: no data, only request errors
+    /// (a field error — one with a path — means execution had begun), empty resolver log
     fn rejected(&self) -> bool {
-        self.obs.data == "null" && !self.obs.errors.is_empty() && self.log.is_empty() && self.responses == 1
+        self.obs.data == "null" && !self.obs.errors.is_empty() && self.obs.errors.iter().all(|e| e.path.is_empty()) && self.log.is_empty() && self.responses == 1
     }
     fn to_json(&self) -> J {
         json!({"response": self.obs.to_json(), "resolver_log": self.log, "responses": self.responses})
@@ -344,6 +345,7 @@ fn check_doc(cx: &Cx, st: &Stats, t: &Target, c: &DocCase) {
             .key("flavour", flavour)
             .key("feature", c.feature.clone())
             .key("feed", c.feed.clone())
+            .key("complexity_rules", if c.family == "custom-complexity" { "declared" } else { "default-only" })
             .key("unset_variable_feeds_rule", if c.unset_variable_feeds_rule { "yes" } else { "no" }),
         );
         return;
@@ -412,6 +414,7 @@ fn check_doc(cx: &Cx, st: &Stats, t: &Target, c: &DocCase) {
                     .key("feature", c.feature.clone())
                     .key("feed", c.feed.clone())
                     .key("retyping_spread", c.retyping_spread.clone())
+                    .key("complexity_rules", if c.family == "custom-complexity" { "declared" } else { "default-only" })
                     .key("off_by", ob),
             );
         }
@@ -602,7 +605,7 @@ fn run(cx: &Cx) {
         cx.machinery_error(format!("reference and implementation never agreed on {} (vacuous or systematically wrong)", if ar == 0 { "a rejection" } else { "an acceptance" }));
     }
     cx.rule(&format!(
-        "case = (document, flavour); for each of the 4 measures the schema is built with that one limit at m−1, m, m+1 (m = reference measure; negative limits dropped) and the request executed, plus one run without limits. Documents: (query-static) every valid query ≤ {nodes} selection nodes over S1's subset (fields per type {FIELDS:?}, fragment conditions {CONDS:?}, ≤ 2 named fragments incl. nested spreads, inline fragments typed/untyped), structure exhaustive, ≤ {deco} decoration(s) (alias; 12 @skip/@include forms incl. variables, 1 or 2 directives per node); (query-dynamic) the same with ≤ {dyn_nodes} nodes on the dynamic twin of S1; (mutation), (subscription: single root field, first stream response) ≤ {} nodes on both flavours; (custom-complexity) the K family: root entry ∈ 10 forms × feed of n ∈ {{argument default, literal 3, literal 0, variable, variable default, given-over-default, nullable variable given, nullable variable omitted}} × sub-selection ∈ 8 forms (alias, spread of a fragment on the object / on the interface, inline fragment, @skip'd field, nested rule field with its own feed), optionally a second root entry ({}). All-default world. Non-trivial = (document, flavour) on which both an expected rejection and an expected acceptance were observed and agreed.",
+        "case = (document, flavour); for each of the 4 measures the schema is built with that one limit at m−1, m, m+1 (m = reference measure; negative limits dropped) and the request executed, plus one run without limits. Documents: (query-static) every valid query ≤ {nodes} selection nodes over S1's subset (fields per type {FIELDS:?}, fragment conditions {CONDS:?}, ≤ 2 named fragments incl. nested spreads, inline fragments typed/untyped), structure exhaustive, ≤ {deco} decoration(s) (alias; 12 @skip/@include forms incl. variables, 1 or 2 directives per node); (query-dynamic) the same with ≤ {dyn_nodes} nodes on the dynamic twin of S1; (mutation), (subscription: single root field, first stream response) ≤ {} nodes on both flavours; (custom-complexity) the K family: root entry ∈ 11 forms (incl. an object-typed fragment spread into an interface-typed selection set) × feed of n ∈ {{argument default, literal 3, literal 0, variable, variable default, given-over-default, nullable variable given, nullable variable omitted}} × sub-selection ∈ 8 forms (alias, spread of a fragment on the object / on the interface, inline fragment, @skip'd field, nested rule field with its own feed), optionally a second root entry ({}). All-default world. Non-trivial = (document, flavour) on which both an expected rejection and an expected acceptance were observed and agreed.",
         if quick { 3 } else { 4 },
         if quick { "reduced menu of 4" } else { "full menu" }
     ));
